@@ -278,15 +278,27 @@ def no_session_sweep(stage):
         with net.patched():
             cli = APIClient("10.0.0.1", 6053, None)
             tr = None
-            if stage in ("ended", "between"):
+            if stage in ("ended", "ended-after-use", "between"):
                 await cli.start_connection()
-                if stage == "ended":
+                if stage in ("ended", "ended-after-use"):
                     task = asyncio.ensure_future(cli.finish_connection(login=False))
                     await simnet.drain(loop)
                     tr = net.transports[-1]
                     tr.feed(simnet.plain_msg(pb.HelloResponse(api_version_major=1, api_version_minor=10, name="dev")))
                     await simnet.drain(loop)
                     await task
+                    if stage == "ended-after-use":
+                        # the session has been used: what was asked and answered then is no answer now
+                        t1 = asyncio.ensure_future(cli.device_info())
+                        await simnet.drain(loop)
+                        tr.feed(simnet.plain_msg(pb.DeviceInfoResponse(name="dev", mac_address="AA:BB:CC:DD:EE:FF", esphome_version="2024.1.0")))
+                        await simnet.drain(loop)
+                        await t1
+                        t2 = asyncio.ensure_future(cli.list_entities_services())
+                        await simnet.drain(loop)
+                        tr.feed(simnet.plain_msg(pb.ListEntitiesSwitchResponse(key=5, name="s", object_id="s")) + simnet.plain_msg(pb.ListEntitiesDoneResponse()))
+                        await simnet.drain(loop)
+                        await t2
                     tr.feed(simnet.plain_msg(pb.DisconnectRequest()))
                     await simnet.drain(loop)
             skip = {"connect", "start_connection", "finish_connection", "disconnect", "set_debug", "set_cached_name_if_unset"}
@@ -418,7 +430,7 @@ def run(rep, tier, seed):
         if r != "accepted":
             rep.violation("C19/refused-in-stop-callback", f"the session was ended by {ending}; start_connection() called from the stop callback (before it first suspends) "
                           f"answered {r!r} although no session is alive and no attempt is in progress", {"kind": "restart-from-hook", "ending": ending})
-    for stage in ("never", "between", "ended"):
+    for stage in ("never", "between", "ended", "ended-after-use"):
         bad = no_session_sweep(stage)
         rep.case(("no-session-sweep", stage), True, sample={"no_session_sweep": stage, "not_refused": bad[:5]})
         rep.bump("probe:no-session-sweep")
